@@ -70,7 +70,7 @@ def classify(semiring, obs, exp):
     return f'value:{semiring}:mismatch'
 
 
-def check_spec(spec, meta, hooks=None):
+def check_spec(spec, meta, hooks=None, index=0):
     import torch
     fggs = env.setup()
     dtype = torch.float32 if meta['dtype'] == 'float32' else torch.float64
@@ -90,7 +90,7 @@ def check_spec(spec, meta, hooks=None):
             nontrivial = True
         builder = G.pattern_weight_builder(fggs, spec, S) if meta['typed'] else None
         for method in METHODS:
-            fgg, info = G.build_fgg(fggs, spec, S, dtype, weight_builder=builder)
+            fgg, info = G.build_fgg(fggs, spec, S, dtype, weight_builder=builder, start_via_setter=index % 4 == 2)
             sr = G.make_semiring(fggs, S, dtype)
             kw = dict(semiring=sr)
             if method:
@@ -180,7 +180,7 @@ def run_case(tier, seed, index, spec=None, meta=None):
         def on_call(a, k):
             methods_seen.append(a[2]['method'] if len(a) > 2 and isinstance(a[2], dict) else '?')
         h.spy(SP.SumProduct, 'forward', on_call=on_call, key='SumProduct.forward', static=True)
-        res = check_spec(spec, meta, h)
+        res = check_spec(spec, meta, h, index)
         hooks = dict(h.count)
     feats = sorted(G.features_of(spec)) + [meta['dtype'], 'patterned' if meta['typed'] else 'dense'] + [f for f in meta['forced'] if f == 'stride0-nonterminals']
     res.update(cls='nonrec-' + ('patterned' if meta['typed'] else 'dense'), features=feats, key=G.spec_key(spec),
